@@ -25,7 +25,9 @@ import (
 
 	"go.uber.org/zap"
 	"google.golang.org/grpc"
+	"google.golang.org/grpc/codes"
 	"google.golang.org/grpc/metadata"
+	"google.golang.org/grpc/status"
 
 	"github.com/ozontech/seq-db/consts"
 	"github.com/ozontech/seq-db/disk"
@@ -298,57 +300,112 @@ func kwCase(r *vh.RNG, kw string) string {
 	return kw
 }
 
-// parseChannel: parser.parsePipeFields (through search.tryParseFieldsFilter) vs SV.Fields.parsePipeFields on token lists.
+// uniSpaces are separators the lexer skips with unicode.IsSpace (ASCII blank, tab, NBSP, NEL, EM SPACE, IDEOGRAPHIC SPACE)
+var uniSpaces = []string{" ", " ", "  ", "\t", "\u00a0", "\u0085", "\u2003", "\u3000"}
+
+// parseChannel: parser.parsePipeFields / parseFieldList / parseCompositeToken (through search.tryParseFieldsFilter)
+// vs SV.Fields.parsePipeFields on the token list the lexer produces for the generated text.
 func parseChannel(o vh.Opts, r *vh.RNG) *vh.Channel {
-	ch := vh.NewChannel("fields.parse", "search.tryParseFieldsFilter(`* | <tokens>`) vs SV.Fields.parsePipeFields on the generated token list: keywords fields/except in lower, UPPER and Capitalised spelling, quoted \"except\" / \"fields\" / \"EXCEPT\" as field names, names with and without commas, error shapes (missing list, leading / trailing / double comma, no fields keyword); non-trivial = the pipe parses")
+	ch := vh.NewChannel("fields.parse", "search.tryParseFieldsFilter(`service:c20 | <text>`) vs SV.Fields.parsePipeFields on the lexer tokens of <text> (text, quoted, space-skipped): keywords fields/except in lower, UPPER, Capitalised spelling and with the non-ASCII fold partner (fieldſ), quoted keywords as names, composite names glued without white space (a-b, a.b, a_b-c, a\"b c\", x*), symbol tokens ($ % & @ - *) alone and inside names, white space of every unicode kind between names, optional commas, error shapes (missing list, leading / trailing / double comma, no fields keyword, bare symbol); non-trivial = the pipe parses")
 	type tok struct {
 		text   string
 		quoted bool
+		word   bool // a run of token runes (two of them need white space in between)
 	}
-	names := []tok{{"a", false}, {"message", false}, {"k8s_pod", false}, {"level", false}, {"except", true}, {"EXCEPT", true}, {"fields", true},
-		{"x y", true}, {"a|b", true}, {"Except", true}, {"ts", false}, {"zone_1", false}}
-	n := o.Pick(600, 8000)
+	words := []string{"a", "b", "message", "k8s_pod", "level", "a.b", "ts", "zone_1", "x", "é", "日本", "Except", "or", "fields"}
+	quotedNames := []string{"except", "EXCEPT", "fields", "x y", "a|b", "", "k$"}
+	symbols := []string{"$", "%", "&", "@", "-", "-", "*"}
+	n := o.Pick(1200, 15000)
 	for i := 0; i < n; i++ {
 		var ts []tok
+		var glue []bool // white space before token i
 		tags := []string{}
-		if r.Intn(12) == 0 {
-			ts = append(ts, tok{"field", false}) // not the keyword
-			tags = append(tags, "no-keyword")
-		} else {
-			ts = append(ts, tok{kwCase(r, "fields"), false})
-		}
-		if r.Intn(2) == 0 {
-			ts = append(ts, tok{kwCase(r, "except"), false})
-			tags = append(tags, "except-keyword="+ts[len(ts)-1].text)
-		}
-		k := r.Intn(5)
-		for j := 0; j < k; j++ {
-			if j > 0 && r.Intn(5) > 0 {
-				ts = append(ts, tok{",", false})
+		add := func(t tok, space bool) {
+			if len(ts) > 0 && !space && ts[len(ts)-1].word && !ts[len(ts)-1].quoted && t.word && !t.quoted {
+				space = true // two bare words always need a separator
 			}
-			ts = append(ts, names[r.Intn(len(names))])
+			ts = append(ts, t)
+			glue = append(glue, space)
 		}
 		switch r.Intn(14) {
 		case 0:
-			ts = append(ts, tok{",", false})
+			add(tok{"field", false, true}, true)
+			tags = append(tags, "no-keyword")
+		case 1:
+			add(tok{"field\u017f", false, true}, true) // fieldſ
+			tags = append(tags, "keyword-long-s")
+		default:
+			add(tok{kwCase(r, "fields"), false, true}, true)
+		}
+		if r.Intn(2) == 0 {
+			add(tok{kwCase(r, "except"), false, true}, true)
+			tags = append(tags, "except-keyword")
+		}
+		k := r.Intn(5)
+		for j := 0; j < k; j++ {
+			if j > 0 && r.Intn(5) > 1 {
+				add(tok{",", false, false}, r.Bool())
+			}
+			// one name: 1..4 glued pieces
+			pieces := 1
+			if r.Intn(3) == 0 {
+				pieces = 2 + r.Intn(3)
+				tags = append(tags, "composite-name")
+			}
+			for pc := 0; pc < pieces; pc++ {
+				var t tok
+				switch r.Intn(8) {
+				case 0, 1:
+					t = tok{symbols[r.Intn(len(symbols))], false, false}
+					tags = append(tags, "symbol-token")
+				case 2:
+					t = tok{quotedNames[r.Intn(len(quotedNames))], true, true}
+				default:
+					t = tok{words[r.Intn(len(words))], false, true}
+				}
+				add(t, pc == 0)
+			}
+		}
+		switch r.Intn(14) {
+		case 0:
+			add(tok{",", false, false}, r.Bool())
 			tags = append(tags, "trailing-comma")
 		case 1:
 			if len(ts) > 1 {
-				ts = append(ts[:1], append([]tok{{",", false}}, ts[1:]...)...)
+				ts = append(ts[:1], append([]tok{{",", false, false}}, ts[1:]...)...)
+				glue = append(glue[:1], append([]bool{true}, glue[1:]...)...)
 				tags = append(tags, "comma-first")
 			}
 		}
-		var text, model []string
-		for _, t := range ts {
-			if t.quoted {
-				text = append(text, `"`+t.text+`"`)
-				model = append(model, "q"+nameHex(t.text))
-			} else {
-				text = append(text, t.text)
-				model = append(model, "u"+nameHex(t.text))
+		var text strings.Builder
+		var model []string
+		uni := false
+		for j, t := range ts {
+			if glue[j] {
+				sp := uniSpaces[r.Intn(len(uniSpaces))]
+				if sp[0] >= 0x80 {
+					uni = true
+				}
+				text.WriteString(sp)
 			}
+			m := "u"
+			if t.quoted {
+				text.WriteString(`"` + t.text + `"`)
+				m = "q"
+			} else {
+				text.WriteString(t.text)
+			}
+			if glue[j] {
+				m += "s"
+			} else {
+				m += "n"
+			}
+			model = append(model, m+nameHex(t.text))
 		}
-		q := "service:c20 | " + strings.Join(text, " ")
+		if uni {
+			tags = append(tags, "non-ascii-space")
+		}
+		q := "service:c20 |" + text.String()
 		fields, allow := search.VerifC20ParseFieldsFilter(q)
 		impl := "err"
 		if len(fields) > 0 {
@@ -521,10 +578,25 @@ type stored struct {
 // localStore lets the real proxy search.Ingestor talk to the real in-process store (storeapi.GrpcV1).
 type localStore struct {
 	pb.StoreApiClient
-	g *storeapi.GrpcV1
+	g    *storeapi.GrpcV1
+	host string
+	w    *replicaWorld
+}
+
+// replicaWorld: which replica answered the last search, and whether that replica is down when the fetch comes
+type replicaWorld struct {
+	mu         sync.Mutex
+	lastSearch string
+	downAtFetch bool
+	refused    int
 }
 
 func (l *localStore) Search(ctx context.Context, in *pb.SearchRequest, _ ...grpc.CallOption) (*pb.SearchResponse, error) {
+	if l.w != nil {
+		l.w.mu.Lock()
+		l.w.lastSearch = l.host
+		l.w.mu.Unlock()
+	}
 	return l.g.Search(metadata.NewIncomingContext(ctx, metadata.Pairs("use-seq-ql", "true")), in)
 }
 
@@ -543,6 +615,17 @@ func (c *clientStream) Recv() (*pb.BinaryData, error) {
 }
 
 func (l *localStore) Fetch(ctx context.Context, in *pb.FetchRequest, _ ...grpc.CallOption) (pb.StoreApi_FetchClient, error) {
+	if l.w != nil {
+		l.w.mu.Lock()
+		down := l.w.downAtFetch && l.w.lastSearch == l.host
+		if down {
+			l.w.refused++
+		}
+		l.w.mu.Unlock()
+		if down {
+			return nil, status.Error(codes.Unavailable, "replica is down")
+		}
+	}
 	fs := &fakeStream{ctx: ctx}
 	if err := l.g.Fetch(in, fs); err != nil {
 		return nil, err
@@ -559,8 +642,9 @@ func searchOracle(o vh.Opts, r *vh.RNG, rep *vh.Report, g *storeapi.GrpcV1, docs
 		byID[docs[i].id] = &docs[i]
 	}
 	empty := &stores.Stores{}
-	si := search.NewIngestor(search.Config{HotStores: &stores.Stores{Shards: [][]string{{"s0"}}}, HotReadStores: empty, ReadStores: empty, WriteStores: empty},
-		map[string]pb.StoreApiClient{"s0": &localStore{g: g}})
+	w := &replicaWorld{}
+	si := search.NewIngestor(search.Config{HotStores: &stores.Stores{Shards: [][]string{{"s0", "s1"}}}, HotReadStores: empty, ReadStores: empty, WriteStores: empty},
+		map[string]pb.StoreApiClient{"s0": &localStore{g: g, host: "s0", w: w}, "s1": &localStore{g: g, host: "s1", w: w}})
 	run := func(q string, off, size int, order seq.DocsOrder) ([]seq.ID, [][]byte, error) {
 		qpr, ds, _, err := si.Search(context.Background(), &search.SearchRequest{Q: []byte(q), From: 0, To: seq.MID(1 << 42), Offset: off, Size: size, ShouldFetch: true, Order: order}, nil)
 		if err != nil {
@@ -613,7 +697,7 @@ func searchOracle(o vh.Opts, r *vh.RNG, rep *vh.Report, g *storeapi.GrpcV1, docs
 			qs += kwCase(r, "except") + " "
 			mode = "except"
 		}
-		qs += strings.Join(qn, ", ")
+		qs += strings.Join(qn, []string{", ", ",", " ", "\u00a0", "\u3000", " , "}[r.Intn(6)])
 		if r.Intn(4) == 0 {
 			qs += " # only | these"
 		}
@@ -624,7 +708,21 @@ func searchOracle(o vh.Opts, r *vh.RNG, rep *vh.Report, g *storeapi.GrpcV1, docs
 		}
 		line := fmt.Sprintf("search seed=%d req=%d off=%d size=%d order=%d query=%s", o.Seed, q, off, size, order, hex.EncodeToString([]byte(qs)))
 		ids0, plain, err1 := run("service:c20", off, size, order)
+		// one request in five: the replica that answers the search is down when the documents are fetched; the shard
+		// has a second replica with the same data.  An error is an honest answer, a document that is not the
+		// projection is not.
+		replicaDown := r.Intn(5) == 0
+		w.mu.Lock()
+		w.downAtFetch = replicaDown
+		w.mu.Unlock()
 		ids1, filt, err2 := run(qs, off, size, order)
+		w.mu.Lock()
+		w.downAtFetch = false
+		w.mu.Unlock()
+		if replicaDown && err1 == nil && err2 != nil {
+			orc.Case(line, false, "mode="+mode, "replica-down-at-fetch=error")
+			continue
+		}
 		bad := ""
 		keptAny, removedAny := false, false
 		switch {
@@ -667,7 +765,11 @@ func searchOracle(o vh.Opts, r *vh.RNG, rep *vh.Report, g *storeapi.GrpcV1, docs
 				bad = fmt.Sprintf("position %d: %s %q of %q gave %q", i, mode, fields, clip(st.doc), clip(filt[i]))
 			}
 		}
-		orc.Case(line, keptAny && removedAny, "mode="+mode, fmt.Sprintf("order=%d", order))
+		tagDown := "replica-down-at-fetch=no"
+		if replicaDown {
+			tagDown = "replica-down-at-fetch=answered"
+		}
+		orc.Case(line, keptAny && removedAny, "mode="+mode, fmt.Sprintf("order=%d", order), tagDown)
 		if bad != "" {
 			rep.Violate(vh.Violation{Site: "proxy/search/ingestor.go:Search", Class: "wrong-projection-or-document-set", What: bad + " (query " + qs + ")", Replay: []string{line}})
 		}
@@ -1201,7 +1303,7 @@ func fetchOracle(o vh.Opts, r *vh.RNG, rep *vh.Report) *vh.Oracle {
 					qn[i] = `"` + f + `"`
 				}
 			}
-			qs += strings.Join(qn, ", ")
+			qs += strings.Join(qn, []string{", ", ",", " ", "\u00a0", "\u2003", " , "}[r.Intn(6)])
 			if r.Intn(4) == 0 {
 				qs += " # projection | for the dashboard"
 			}
